@@ -248,6 +248,9 @@ def latex_unescape(s: str) -> str:
         else:
             if s[i] == "\\":
                 raise ReadError("unknown-latex-escape", s[i:i + 12])
+            if s[i] in "&%$#_{}~^":
+                # active in LaTeX: an unescaped one does not denote the character
+                raise ReadError("unescaped-latex-special", s[i])
             out.append(s[i])
             i += 1
     return "".join(out)
